@@ -265,8 +265,34 @@ def r3_retry_condition(ctx):
     return out
 
 
+def r4_true_errors(ctx):
+    """'reports true errors': on the lookup path of ProcfsHandle (open, open_noretry, readlink and the closures that
+    post-process their results) no errno is fabricated -- what the resolver/kernel reported is what the caller sees
+    (ENOENT for a missing path, also after the masked-handle retry)."""
+    F = ctx.facts
+    out = []
+    for fn in (PH + "::open", PH + "::open_noretry", PH + "::readlink"):
+        if not F.has(fn):
+            if fn.endswith("open_noretry"):
+                continue
+            out.append(violated("C08.R4", "%s:present" % short(fn), "", "%s not found" % fn))
+            continue
+        bodies = [F.body(fn)] + F.closures_of(fn)
+        bad = []
+        for cb in bodies:
+            for t in cb.calls("std::io::Error::from_raw_os_error", "rustix::io::Errno::from_raw_os_error", "std::io::Error::from"):
+                bad.append(t)
+        key = "%s:no-fabricated-errno" % short(fn)
+        if bad:
+            out.append(violated("C08.R4", key, bad[0].where(), "the procfs lookup path fabricates an errno (%s): a missing path is no longer reported with the error the lookup produced" % bad[0].callee))
+        else:
+            out.append(holds("C08.R4", key, F.body(fn).where(), "errors of the lookup are passed on as produced (%d bodies)" % len(bodies)))
+    return out
+
+
 RULES = [
     ("C08.R1", r1_recursion_witness, 4, False),
     ("C08.R2", r2_constructor_sites, 8, False),
+    ("C08.R4", r4_true_errors, 2, False),
     ("C08.R3", r3_retry_condition, 2, False),
 ]
